@@ -37,8 +37,12 @@ func (r *Run) execPseudo(op *OpDesc, c *Call) []*Violation {
 
 // anchors: the constructors must keep returning the identity, the base point
 // and zero, whatever happened before (observed through alpha, not Bytes).
-func (r *Run) anchors(when string) []*Violation {
-	var vs []*Violation
+func (r *Run) anchors(when string) (vs []*Violation) {
+	defer func() {
+		if x := recover(); x != nil {
+			vs = append(vs, r.viol("C19", "constructor-anchor", "panic", fmt.Sprintf("a constructor panicked %s: %v", when, x)))
+		}
+	}()
 	r.Stats.Inc("oracle/C19/anchors")
 	r.ev("C19")
 	id := edwards25519.NewIdentityPoint()
